@@ -264,6 +264,23 @@ pub fn run(ctx: &Ctx) -> i32 {
         }
         _ => unreachable!(),
     }
+    // Every frame these workloads generate is one the property quantifies over ("every code ...
+    // decodes to ..."): a frame of a supported format and full length that the decoder refuses
+    // is a violation of the property whose workload produced it, not only of C02.
+    if ["C04", "C06", "C07", "C08", "C09", "C10", "C11"].contains(&ctx.prop.as_str()) {
+        let extra: Vec<Finding> = col
+            .by_sig
+            .iter()
+            .filter(|(k, _)| k.starts_with("C02|rejects_valid|"))
+            .map(|(k, (f, _))| {
+                let class = k.trim_start_matches("C02|rejects_valid|");
+                Finding { prop: ctx.prop.clone(), sig: format!("{}|frame_not_decoded|{}", ctx.prop, class), detail: format!("a frame this property quantifies over was rejected by the decoder: {}", f.detail), input: f.input.clone() }
+            })
+            .collect();
+        for f in extra {
+            col.add(f);
+        }
+    }
     let evals = col.counters.get("frames_judged").copied().unwrap_or(0) + col.counters.get("extra_evaluations").copied().unwrap_or(0);
     let distinct = col.distinct.len() as u64;
     let info = ctx.info("exploration", &rule, &assumptions, 1000);
